@@ -89,3 +89,23 @@ Proof.
   rewrite Hl. destruct (Z_lt_le_dec k 12) as [Hlt|Hge]; [left; exact Hlt|right].
   rewrite slice_firstn by lia. rewrite Hb2. lia.
 Qed.
+
+(* ---- the original splitter (fixed buffer offset for the magic byte) ----------------------------- *)
+From Verif Require Import C09_Legacy.
+
+Definition witness_v2 : bytes :=
+  build_records no_compress Py (mkCfg 2 0 false (-1) (-1) (-1) 16384) [mkRec 0 1000 (Some [107]) (Some [118]) []].
+Definition witness_v1 : bytes := encode_msg 1 0 1001 (Some [107; 50]) (Some [118; 50]) 0.
+
+Theorem split_fixed_refuted : exists bs,
+  Forall wf_batch bs /\ split_fixed (concat bs ++ []) <> (map (tag Cy) bs, Some []).
+Proof.
+  exists [witness_v2; witness_v1]. split.
+  - repeat constructor; vm_compute; try reflexivity; discriminate.
+  - intro H. vm_compute in H. discriminate H.
+Qed.
+
+(* the faithful splitters do split this buffer correctly (instance of split_concat) *)
+Example split_witness_ok : forall i,
+  split i (concat [witness_v2; witness_v1] ++ []) = ([tag i witness_v2; tag i witness_v1], Some []).
+Proof. intros i. destruct i; vm_compute; reflexivity. Qed.
